@@ -780,6 +780,11 @@ impl World for LedgerCheck {
             payer_fees: self.id == "C06",
             royalties: if self.id == "C06" { rng.range(1, 3) as u32 } else { rng.range(0, 2) as u32 },
             big_payloads: self.id == "C49",
+            garbage: match self.id {
+                "C11" => rng.range(2, 5) as u32,
+                "C02" | "C05" => rng.range(0, 2) as u32,
+                _ => 0,
+            },
         };
         let mut weights = weights;
         if self.id == "C49" {
